@@ -151,6 +151,11 @@ class C01(HistPlan):
         j += simple_jobs("rel", ["faults", "seed=%d" % seed, "part=drop"], p)
         j += simple_jobs("rel", ["faults", "seed=%d" % seed, "part=iter"], p)
         j += [Job("asan", ["faults", "seed=%d" % seed, "part=drop", "shadow=0"], san_props=p, crash_props=p)]
+        # the same lifetime clause under interleavings: every "one long preemption at a count operation" schedule of small
+        # multi-threaded scenarios (identity registry + allocator monitors decide "destroyed exactly once, nothing leaked")
+        big = tier != "quick"
+        for k, scen in enumerate(("clonedrop", "cow", "unwraprace", "uniqpoll")):
+            j += conc_jobs("dbg", scen, 800 if big else 32, seed, p, delay=0, nshards=4 if big else 1, first0=(60 + k) * 10 ** 6, forced=True, timeout=3000)
         return j
     assumptions = COMMON_ASSUME + [
         "sequences are sampled (seeded), not enumerated; slice/str payloads are covered by the ctor/shapes engines, thin handles by C10",
